@@ -5,6 +5,7 @@ import Proofs.C17_Base64
 import Proofs.C17_Images
 import Proofs.C17_XmlPlain
 import Proofs.C17_Example
+import Proofs.Pins
 namespace Mammoth
 
 /-! ### base64 -/
@@ -630,5 +631,14 @@ example : c17_okAnd (apiConvert c17_exMisplaced 30 none (fun _ => none) id c17_e
     decide ((c02_lexHtml out.value).map (fun toks => (c17_tokVoidImgs toks).map c17_srcAltOf) =
       some [(some (S!"data:image/png;base64," ++ b64encode [9, 9, 9]), some S!"first")])) = true := by
   decide +kernel
+
+/-- The tables of the library that this property's theorems consume (regenerated from /repo's source on this run) still have the
+    content the model was validated against: the browser-friendly image types; the built-in extension -> image type table; the namespace URI -> prefix table.  An edit of one of them in the library changes model and code
+    alike; it is this theorem that then no longer checks (`Proofs/Pins.lean`). -/
+theorem C17_tables_as_validated :
+    (sameSet Generated.browserImageTypes pin_browserImageTypes = true) ∧
+    (Generated.imageExtensions = pin_imageExtensions) ∧
+    (sameSet Generated.namespaces pin_namespaces = true) :=
+  ⟨pins_browserImageTypes, pins_imageExtensions, pins_namespaces⟩
 
 end Mammoth
